@@ -142,11 +142,17 @@ def check_tensor_variants(run, fdmod, p, mode, N, rows, rng):
         "d3x_rank3tensor": ((3, 3, 3), lambda f: D(0, f)),
         "d3y_rank3tensor": ((3, 3, 3), lambda f: D(1, f)),
         "d3z_rank3tensor": ((3, 3, 3), lambda f: D(2, f)),
+        "d3x": ((), lambda f: D(0, f)),
+        "d3y": ((), lambda f: D(1, f)),
+        "d3z": ((), lambda f: D(2, f)),
         "d3_rank1tensor_4": ((4,), lambda f: np.array([D(0, f), D(1, f), D(2, f)])),
         "d3_rank2tensor_4": ((4, 4), lambda f: np.array([D(0, f), D(1, f), D(2, f)])),
     }
-    for name, (lead, ref) in cases.items():
+    for ncase, (name, (lead, ref)) in enumerate(cases.items()):
         f = rng.integers(-9, 10, size=lead + shape).astype(float)
+        if (ncase + N) % 2 == 0:
+            # the operators are linear with real weights: a complex field (Weyl scalars, harmonics) is differentiated part by part
+            f = f + 1j * rng.integers(-9, 10, size=lead + shape).astype(float)
         f0 = f.copy()
         meth = getattr(fd, name.replace("_4", ""))
         try:
@@ -158,8 +164,8 @@ def check_tensor_variants(run, fdmod, p, mode, N, rows, rng):
         exp = ref(f)
         scale = np.abs(exp).max() + 1.0
         if got.shape != exp.shape or np.abs(got - exp).max() > 1e-11 * scale:
-            run.violation({"clause": "TensorComponentwise", "fn": name, "p": p, "mode": mode},
-                          f"{name} (order {p}, {mode}, N={N}) is not the component-wise application of the scalar operator: "
+            run.violation({"clause": "TensorComponentwise", "fn": name, "p": p, "mode": mode, "complex": bool(np.iscomplexobj(f))},
+                          f"{name} (order {p}, {mode}, N={N}, {'complex' if np.iscomplexobj(f) else 'real'} field) is not the component-wise application of the scalar operator: "
                           f"shape {got.shape} vs {exp.shape}, max abs diff "
                           f"{(np.abs(got - exp).max() if got.shape == exp.shape else 'n/a')}",
                           {"p": p, "mode": mode, "N": N, "fn": name})
